@@ -383,10 +383,43 @@ func (fr *Frame) callByContract(ct *Contract, callee *ssa.Function, sig *types.S
 	}
 	for _, rq := range ct.Requires {
 		g := env.evalBool(rq.Expr)
-		o := u.oblig("pre@call", fmt.Sprintf("precondition of %s: %s", shortKey(key), rq.Text), implies(reach, g), nil)
+		if !u.active(rq.Props) {
+			if !contains(rq.Props, "C07") {
+				continue // functional precondition of clauses that are not relied upon under this property
+			}
+			// A precondition tagged C07 is a panic guard: the callee cannot return
+			// normally when it is violated, so under partial correctness it holds after the call.
+			reach = u.define("reach_pre", "Bool", and(reach, g))
+			fr.reach[fr.curBlock] = reach
+			u.assumed[fmt.Sprintf("panic-guard precondition of %s (%s) is checked under %s only; here a normal return implies it", shortKey(key), rq.Text, strings.Join(rq.Props, ","))] = true
+			continue
+		}
+		o := u.oblig("pre@call", fmt.Sprintf("precondition of %s: %s", shortKey(key), rq.Text), implies(reach, g), rq.Props)
 		o.Detail = key
 	}
-	// type invariant of the receiver is assumed to hold (encapsulation), nothing to prove here
+	// type invariant of the receiver: same-package callers establish it before the call
+	// (outside the package it cannot be broken: the fields are unexported); the callee
+	// re-establishes it (obligation type-inv in its own unit), so it holds afterwards.
+	var recvTS *TypeSpec
+	if callee != nil {
+		recvTS = u.eng.recvTypeSpec(callee)
+		if recvTS != nil {
+			if _, isPtr := callee.Signature.Recv().Type().Underlying().(*types.Pointer); !isPtr {
+				recvTS = nil
+			}
+		}
+	}
+	if recvTS != nil && fr.topPkg() == callee.Pkg {
+		ienv := fr.calleeEnv(ct, callee, sig, args, h, invoke)
+		ienv.vars["self"] = args[0]
+		for _, inv := range recvTS.Invs {
+			if !u.active(inv.Props) {
+				continue
+			}
+			o := u.oblig("pre@call", fmt.Sprintf("type invariant of the receiver holds when calling %s: %s", shortKey(key), inv.Text), implies(reach, ienv.evalBool(inv.Expr)), inv.Props)
+			o.Detail = key
+		}
+	}
 	pre := h.clone()
 	// havoc
 	if !ct.Pure {
@@ -414,13 +447,25 @@ func (fr *Frame) callByContract(ct *Contract, callee *ssa.Function, sig *types.S
 		}
 	}
 	post.bindResults(res, sig)
+	if key == "fmt.Sprintf" || key == "fmt.Errorf" {
+		fr.sprintfFacts(key, res, args, reach)
+	}
+	if recvTS != nil {
+		ienv := fr.calleeEnv(ct, callee, sig, args, h, invoke)
+		ienv.vars["self"] = args[0]
+		for _, inv := range recvTS.Invs {
+			if u.active(inv.Props) {
+				u.assume(implies(reach, ienv.evalBool(inv.Expr)))
+			}
+		}
+	}
 	ens := ct.Ensures
 	if ct.Mode == "bv" && !u.so.bv {
 		ens = ct.Exports
 		u.assumed["int-mode export of bv-mode contract "+shortKey(key)+" (justified by the C14 bridge lemmas)"] = true
 	}
 	for _, en := range ens {
-		if len(en.Props) > 0 && u.prop != "" && !contains(en.Props, u.prop) {
+		if !u.active(en.Props) {
 			continue // clause serves another property: not relied upon here
 		}
 		u.assume(implies(reach, post.evalBool(en.Expr)))
@@ -475,4 +520,44 @@ func contains(xs []string, x string) bool {
 		}
 	}
 	return false
+}
+
+// sprintfFacts: a formatted string is at least as long as the literal
+// (non-verb) characters of a constant format.
+func (fr *Frame) sprintfFacts(key string, res []Val, args []Val, reach string) {
+	u := fr.u
+	if len(args) == 0 || len(res) == 0 {
+		return
+	}
+	var format string
+	found := false
+	for lit, name := range u.so.strLits {
+		if name == args[0].T {
+			format, found = lit, true
+		}
+	}
+	if !found {
+		return
+	}
+	n := 0
+	for i := 0; i < len(format); i++ {
+		if format[i] == '%' {
+			// skip the verb
+			i++
+			for i < len(format) && strings.ContainsRune("+-# 0123456789.", rune(format[i])) {
+				i++
+			}
+			if i < len(format) && format[i] == '%' {
+				n++
+			}
+			continue
+		}
+		n++
+	}
+	r := res[0].T
+	if key == "fmt.Errorf" {
+		r = app("errmsg", app("i_val", res[0].T))
+	}
+	u.assume(implies(reach, app(">=", app("strlen", r), fmt.Sprint(n))))
+	u.assumed["fmt.Sprintf output is at least as long as the literal characters of its format"] = true
 }
